@@ -205,6 +205,11 @@ func (t *termer) val(v ssa.Value) string {
 	case *ssa.Const:
 		return constStr(x)
 	case *ssa.Global:
+		if theWorld != nil {
+			if h := theWorld.tableAlias(x); h != nil {
+				x = h
+			}
+		}
 		return "&" + shortQual(x.Pkg.Pkg) + "." + x.Name()
 	case *ssa.Function:
 		return "fn:" + fnName(x)
